@@ -328,7 +328,35 @@ class Guards:
                 a = strip_all(f[1])
                 if a is not None and a.get("k") == "DeclRefExpr" and a.get("d") in self.bool_defs:
                     out.extend(self._expand_aliases(list(atomise(self.bool_defs[a["d"]], f[2])), depth + 1))
+                # a predicate method of the same object whose whole body is `return <expr over members>;`
+                # says what its expression says (is_formatted() <=> take_ != 0)
+                body = self._predicate_body(a)
+                if body is not None:
+                    out.extend(self._expand_aliases(list(atomise(body, f[2])), depth + 1))
         return out
+
+    def _predicate_body(self, a):
+        prog = getattr(self.fn, "prog", None)
+        if prog is None or a is None or a.get("k") != "CXXMemberCallExpr" or len(a.get("c", [])) != 1:
+            return None
+        callee = strip(a["c"][0])
+        if not callee or callee.get("k") != "MemberExpr" or not callee.get("c"):
+            return None
+        recv = strip_all(callee["c"][0])
+        if recv is None or recv.get("k") != "CXXThisExpr":
+            return None
+        ts = prog.call_targets(self.fn, a)
+        if len(ts) != 1 or ts[0].params or ts[0].unit is not self.fn.unit:
+            return None
+        stmts = ts[0].body.get("c", []) if ts[0].body and ts[0].body.get("k") == "CompoundStmt" else []
+        if len(stmts) != 1 or stmts[0].get("k") != "ReturnStmt" or not stmts[0].get("c"):
+            return None
+        e = stmts[0]["c"][0]
+        # only member reads, constants and operators: no calls, no locals
+        for x in walk(e):
+            if x.get("k") in CALLISH or (x.get("k") == "DeclRefExpr" and x.get("dk") not in ("EnumConstant",)):
+                return None
+        return e
 
     def _weaken(self, fs):
         """Add the NAND facts implied by atomic facts (not a  =>  not (a and b)),
